@@ -215,7 +215,8 @@ class Runner:
 
     def job(self, j):
         if self.lcx is None:
-            self.lcx = Lcx(self.flavour)
+            # a small stack makes the unbounded recursion of the known finding end in seconds under ASan, not minutes
+            self.lcx = Lcx(self.flavour, stack_kb=1024 if self.flavour == 'asan' else None, job_timeout=120)
         return self.lcx.job(j)
 
     def work(self):
@@ -237,6 +238,9 @@ def families(opts):
 
     def run(i, ctx):
         case = decode(i)
+        if opts.get('skip-libunits') == case['libunits']:
+            ctx.outcome('not-run-in-this-pass:libunits=' + case['libunits'])
+            return
         root, lib, expected = build(case)
         tag = ':'.join('%s' % case[k] for k, _ in DIMS)
 
